@@ -27,6 +27,8 @@ type KFEntry struct {
 	// Expand: the violation is produced by the oracle's own observation on an otherwise healthy state, so the
 	// state is still expanded (keeps the exploration behind it from becoming vacuous).
 	Expand bool `json:"expand,omitempty"`
+	// Params are passed to the matcher (e.g. the operation@site pairs a dropped-error finding covers).
+	Params []string `json:"params,omitempty"`
 }
 
 type kfNote struct {
@@ -42,10 +44,11 @@ type KnownFindings struct {
 
 // MatchCtx is what a matcher may look at.
 type MatchCtx struct {
-	Prop string
-	V    *Violation
-	Hist []Op
-	Cfg  Cfg
+	Params []string
+	Prop   string
+	V      *Violation
+	Hist   []Op
+	Cfg    Cfg
 }
 
 var matchers = map[string]func(c *MatchCtx) bool{}
@@ -92,6 +95,7 @@ func (kf *KnownFindings) Match(prop string, v *Violation, hist []Op, cfg Cfg) st
 				ok = true
 			}
 		}
+		c.Params = e.Params
 		if f, has := matchers[e.Matcher]; ok && has && f(c) {
 			return e.ID
 		}
@@ -179,4 +183,17 @@ func (kf *KnownFindings) MatchRaw(prop, text string) string {
 		}
 	}
 	return ""
+}
+
+// stepOver reports whether a violation found by a deviation oracle (crash cuts, faults) inside a state is a
+// known finding; if so it is noted and the oracle goes on with the next deviation of the same state.
+func stepOver(s *Spec, hist []Op, v *Violation) bool {
+	if s.KF == nil {
+		return false
+	}
+	if id := s.KF.Match(s.ID, v, hist, s.Cfg); id != "" {
+		s.KF.Note(id, s, hist, v)
+		return true
+	}
+	return false
 }
